@@ -26,6 +26,8 @@ func (self ValueObject) Display() (string, *Interrupt) {
 		fields = append(fields, fmt.Sprintf("%s: %s", key, disp))
 	}
 
+	// Go map iteration order is random: display the fields in a stable (sorted) order.
+	sort.Strings(fields)
 	return fmt.Sprintf("{\n    %s\n}", strings.Join(fields, ",\n    ")), nil
 }
 
